@@ -18,6 +18,26 @@ type customCall struct {
 	cmd  string
 	args []string
 	tok  string
+	reg  string
+}
+
+var customNames = []string{"MYCMD", "X", "APP.ECHO", "ZREVRANGEBYSCOREX", "TDIGEST.TRIMMED_MEAN", "AN_APPLICATION_COMMAND_WITH_A_VERY_LONG_NAME_0123456789"}
+
+// caseVariant flips the case of the ASCII letters of s as drawn.
+func caseVariant(t *sim.Tape, s string) string {
+	b := []byte(s)
+	switch t.Draw(4, "customcase") {
+	case 0:
+		return s
+	case 1:
+		return strings.ToLower(s)
+	}
+	for i, c := range b {
+		if c >= 'A' && c <= 'Z' && t.Draw(2, "flip") == 1 {
+			b[i] = c + 'a' - 'A'
+		}
+	}
+	return string(b)
 }
 
 // runC05: well-formed requests on 1..3 connections served by the same server;
@@ -28,19 +48,23 @@ func runC05(t *testing.T, tape *sim.Tape, tier string) *Outcome {
 	w := newWorld(tape, o)
 	w.Srv.SetAuthCommandHandler(w.D)
 	var customs []customCall
-	w.Srv.RegisterExexutor("MYCMD", func(conn *redis.Conn, cmd string, args redis.Arguments) (*redis.Message, error) {
-		cc := customCall{cid: w.D.ConnID(conn), cmd: cmd, tok: fmt.Sprintf("custom%d", len(customs))}
-		for {
-			s, err := args.NextString()
-			if err != nil {
-				break
+	// application-registered executors: names are the application's choice (any length, dots, digits)
+	for _, reg := range customNames {
+		reg := reg
+		w.Srv.RegisterExexutor(reg, func(conn *redis.Conn, cmd string, args redis.Arguments) (*redis.Message, error) {
+			cc := customCall{cid: w.D.ConnID(conn), cmd: cmd, reg: reg, tok: fmt.Sprintf("custom%d", len(customs))}
+			for {
+				s, err := args.NextString()
+				if err != nil {
+					break
+				}
+				cc.args = append(cc.args, s)
 			}
-			cc.args = append(cc.args, s)
-		}
-		customs = append(customs, cc)
-		w.S.Logf(cc.cid, "custom executor %q %q", cmd, cc.args)
-		return redis.NewBulkMessage(cc.tok), nil
-	})
+			customs = append(customs, cc)
+			w.S.Logf(cc.cid, "custom executor %s %q %q", reg, cmd, cc.args)
+			return redis.NewBulkMessage(cc.tok), nil
+		})
+	}
 	nconn := 1 + tape.Draw(3, "nconn")
 	maxN := 8
 	if tier == "thorough" {
@@ -61,12 +85,13 @@ func runC05(t *testing.T, tape *sim.Tape, tier string) *Outcome {
 			case 0: // unknown command
 				reqs = append(reqs, g.Next(i, 0, 16))
 			case 1: // application-registered executor
-				name := []string{"MYCMD", "mycmd", "MyCmd", "mYcMD"}[tape.Draw(4, "customcase")]
+				reg := customNames[tape.Draw(len(customNames), "customname")]
+				name := caseVariant(tape, reg)
 				args := []string{name}
 				for k := tape.Draw(4, "customargs"); k > 0; k-- {
 					args = append(args, fmt.Sprintf("a%d.%d", i, k))
 				}
-				reqs = append(reqs, &wl.Req{Idx: i, Name: "MYCMD", Args: args, Bytes: resp.Cmd(args...), Mode: wl.Custom, Class: "custom", SelectDB: -1})
+				reqs = append(reqs, &wl.Req{Idx: i, Name: reg, Args: args, Bytes: resp.Cmd(args...), Mode: wl.Custom, Class: "custom", SelectDB: -1})
 			default:
 				r := g.Next(i, 0, 0)
 				for r.Quit { // QUIT is C03's subject
@@ -199,6 +224,9 @@ func runC05(t *testing.T, tape *sim.Tape, tier string) *Outcome {
 				}
 				cc := myCustoms[custIdx]
 				custIdx++
+				if cc.reg != r.Name {
+					o.violate("c05:custom-wrong-executor", "%s: executor registered as %s was invoked for %s", where, cc.reg, r.Name)
+				}
 				if cc.cmd != r.Args[0] || strings.Join(cc.args, "\x00") != strings.Join(r.Args[1:], "\x00") {
 					o.violate("c05:custom-args", "%s: executor got cmd %q args %q", where, cc.cmd, cc.args)
 				}
